@@ -18,10 +18,13 @@ TReset ==
   /\ Ev("Reset")
   /\ wal' = << >> /\ gAck' = -1 /\ qAck' = -1 /\ dDict' = Empty /\ dCounter' = 0 /\ dFiles' = {} /\ dSeq' = -1
   /\ up' = TRUE /\ gCons' = -1 /\ fSeq' = -1
-  /\ mDict' = Empty /\ mCounter' = 0 /\ mem' = {} /\ imm' = {} /\ immSeq' = -1 /\ gen' = 0 /\ pendAck' = FALSE
+  /\ mDict' = Empty /\ mCounter' = 0 /\ mem' = {} /\ imm' = {} /\ immSeq' = -1 /\ gen' = 0 /\ ifl' = NoIfl /\ pendAck' = FALSE
 
 TAppend == Ev("Append") /\ AppendEntry(Line.name)
 TReplicaStep == Ev("ReplicaStep") /\ ReplicaStep
+TRBegin == Ev("RBegin") /\ RBegin
+TRWrite == Ev("RWrite") /\ RWrite
+TRCommit == Ev("RCommit") /\ RCommit
 TMetaFlush == Ev("MetaFlush") /\ MetaFlush
 TFamilyCommit == Ev("FamilyCommit") /\ FamilyFreezeAndCommit
 TFamilyAck == Ev("FamilyAck") /\ FamilyAck
@@ -52,7 +55,7 @@ TFinal ==
                     THEN Cardinality({b \in dFiles : b.seq = s /\ b.id = AllDict[n]}) ELSE 0)
   /\ UNCHANGED vars
 
-TraceNext == TReset \/ TAppend \/ TReplicaStep \/ TMetaFlush \/ TFamilyCommit \/ TFamilyAck \/ TCrash \/ TRecover \/ TLogRollback
+TraceNext == TReset \/ TAppend \/ TReplicaStep \/ TRBegin \/ TRWrite \/ TRCommit \/ TMetaFlush \/ TFamilyCommit \/ TFamilyAck \/ TCrash \/ TRecover \/ TLogRollback
              \/ TSyncGC \/ TStutter \/ TProj \/ TFinal
 TraceSpec == TraceInit /\ [][TraceNext]_tvars
 HighWater == TLCSet(1, IF l > TLCGet(1) THEN l ELSE TLCGet(1))
